@@ -518,7 +518,14 @@ func c15Enum(e, maxN int) []string {
 	return nil
 }
 
-func c15EnumMax() int { return vhEnvInt("C15_ENUM_MAXN", 6) }
+// c15EnumMax: trees of up to 6 nodes in the quick tier, up to 8 nodes when the shards are large (thorough tier).
+func c15EnumMax() int {
+	def := 6
+	if vhEnvInt("VERIF_N", 0) >= 4000 {
+		def = 8
+	}
+	return vhEnvInt("C15_ENUM_MAXN", def)
+}
 
 // c15Random: trees of up to 60 nodes in several shapes, interleaved prunes, duplicates, wrong numbers,
 // headers whose primary flag cannot be determined.
